@@ -159,9 +159,20 @@ def run_case(case, ch, workdir):
         return res
     sid = [m.get("@id") for m in starts]
     eid = [m.get("@id") for m in ends]
-    if len(starts) != len(jobs):
+    # A failing identity that occurs twice in one submission (two states of a nested
+    # workflow with equal inputs) is executed twice - a stored failure is never served -
+    # and leaves ONE job directory: then the number of directories is only a lower bound
+    # for the number of executions (seen in the thorough tier: 5 of 5000 cases).
+    ent = {}
+    for _n, d in events:
+        if d[0] == "enter":
+            ent[d[1]] = ent.get(d[1], 0) + 1
+    repeated = any(n > 1 for n in ent.values())
+    if repeated:
+        res["probes"]["failing_identity_executed_twice"] = 1
+    if len(starts) != len(jobs) and not (repeated and len(starts) > len(jobs)):
         violation(res, "start-record-count", sig, f"{len(starts)} start records for {len(jobs)} executed jobs; {ctx}")
-    if len(ends) != len(jobs):
+    if len(ends) != len(jobs) and not (repeated and len(ends) > len(jobs)):
         violation(res, "end-record-count", sig, f"{len(ends)} end records for {len(jobs)} executed jobs; {ctx}")
     if len(set(sid)) != len(sid):
         violation(res, "duplicate-activity-id", sig, f"start records share ids: {sid}; {ctx}")
